@@ -148,6 +148,11 @@ def preMoveE (E : Rel) (dP sP : Loc) : Rel :=
   if dP = sP then E else
   ((E.filter (fun x => x.2 == sP)).map (fun x => (x.1, dP))) ++ E.filter (fun x => x.2 != dP)
 
+/-- both programs copy (`vd := vs` / `ld := ls` with `ls` holding `vs`): `ld` holds `vd`, and so does every other
+    location that held `vs` -/
+def twinMoveE (E : Rel) (dQ dP sP : Loc) : Rel :=
+  (dQ, dP) :: ((E.filter (fun x => x.1 != dQ && x.2 == sP)).map (fun x => (x.1, dP)) ++ kill E [dQ] [dP])
+
 /-- the pair `(p, q)` is certified with a relation implied by `E` (and a smaller measure when required) -/
 def okSucc (cert : Cert) (p q : Nat) (E : Rel) (dlim : Option Nat) : Bool :=
   match cert[q]? with
@@ -161,7 +166,7 @@ def checkTwin (cert : Cert) (p q : Nat) (E : Rel) : Inst → Inst → Bool
       kP == kQ && mP == mQ && eP == eQ && readsOK E rP rQ && wP.length == wQ.length && nodupB wP && nodupB wQ
       && okSucc cert (p + 1) (q + 1) (twinE E wQ cQ wP cP) none
   | .move dP sP _, .move dQ sQ _ =>
-      E.contains (sQ, sP) && okSucc cert (p + 1) (q + 1) ((dQ, dP) :: kill E [dQ] [dP]) none
+      E.contains (sQ, sP) && okSucc cert (p + 1) (q + 1) (twinMoveE E dQ dP sP) none
   | .jmp tP, .jmp tQ => okSucc cert tP tQ E none
   | .jcc kP rP tP, .jcc kQ rQ tQ =>
       kP == kQ && readsOK E rP rQ && okSucc cert tP tQ E none && okSucc cert (p + 1) (q + 1) E none
